@@ -278,6 +278,8 @@ def run(ctx, rep):
     units.r15b(ctx, rep)
     r15c(ctx, rep)
     r15d(ctx, rep)
+    from . import numeric
+    numeric.r_fold_adjacent(ctx, rep, "R15f", [STRMOD, "marwood::vm::builtin::char::"], 2)
     from . import C14
     C14.r14g(ctx, rep, rule="R15e", only=STRMOD, floor=1)
     from . import C06
